@@ -209,6 +209,9 @@ def c04(chk):
     trace_s = drive(chk, "steer")
     need_stat(chk, "steer_saves_with_leaf_directories", 4)
     chk.validate("Trace_Archive", trace_s, "steer", scope=scope_of("C04"), parallel=8, cuts=True, timeout=3000)
+    # bulk-loaded archives: megabyte tiles, a six-digit run of one content, thousands of tiles -- saved, reopened, looked up
+    trace_b = drive(chk, "bulk")
+    chk.validate("Trace_Archive", trace_b, "bulk", scope=scope_of("C04"), parallel=6, cuts=True, timeout=3000)
     seg = segment_with(trace, lambda o: o["ev"] == "Get" and o["res"] == "some")
     neg_segment(chk, seg, lambda o: o.update(tok=o["tok"] + 1), "get_tok", "C04")
     neg_segment(chk, seg, lambda o: o.update(res="none"), "get_none", "C04")
